@@ -377,6 +377,8 @@ func (d *SDriver) collections() map[uint32]string {
 	return colls
 }
 
+var metaTypeFlip bool
+
 // verOverride: the server version of every driver built in this process (children of the gate scenario)
 var verOverride *couchbase.Version
 
@@ -409,6 +411,14 @@ func (d *SDriver) buildConfig() *config.Dcp {
 	cfg.Dcp.Group.Name = "g"
 	cfg.Dcp.Group.Membership.Type = membership.StaticMembershipType
 	cfg.Dcp.Group.Membership.RebalanceDelay = time.Millisecond
+	// the configured metadata type has no bearing on a stream that is handed its store (as SetMetadata does): it alternates
+	// between the default and another backend so that nothing of the stream depends on it unnoticed
+	metaTypeFlip = !metaTypeFlip
+	if metaTypeFlip {
+		cfg.Metadata.Type = "file"
+	} else {
+		cfg.Metadata.Type = "couchbase"
+	}
 	return cfg
 }
 
@@ -424,8 +434,10 @@ func (d *SDriver) setServer(sv *SServer) {
 	d.Client.High = map[uint16]uint64{}
 	d.Client.UUID = map[uint16]uint64{}
 	d.Client.Roll = map[uint16]bool{}
+	d.Client.HighColl = map[uint16]uint64{}
 	for k, v := range sv.High {
 		d.Client.High[k] = v
+		d.Client.HighColl[k] = v / 2 // the streamed collections lag behind the vBucket: start-up must not look at this one
 	}
 	for k, v := range sv.UUID {
 		d.Client.UUID[k] = v
@@ -840,12 +852,14 @@ func (d *SDriver) deliver(ob couchbase.Observer, vb uint16, e *SEv) {
 
 // scrape runs the real metric collector once.
 func (d *SDriver) scrape(high map[uint16]uint64) SOut {
-	saved := d.Client.High
+	saved, savedColl := d.Client.High, d.Client.HighColl
 	d.Client.High = map[uint16]uint64{}
+	d.Client.HighColl = map[uint16]uint64{}
 	for k, v := range high {
-		d.Client.High[k] = v
+		d.Client.HighColl[k] = v // what the collector asks for (collection-aware)
+		d.Client.High[k] = v + 7 // ... and what it must not look at
 	}
-	defer func() { d.Client.High = saved }()
+	defer func() { d.Client.High, d.Client.HighColl = saved, savedColl }()
 	col := metric.NewMetricCollector(d.Client, d.Stream, d.Disc)
 	ch := make(chan prometheus.Metric, 4096)
 	done := make(chan struct{})
